@@ -196,7 +196,8 @@ def run(ctx) -> None:
   ctx.rule('R3', 'the benchmark chain forwards the seed at every hop', 3)
   ctx.rule('R4', 'no iteration over a set in suggestion-building code', 1)
   ctx.rule('R6', 'no process-wide mutable state or memoisation in the modules on the seeded path', 10)
-  ctx.import_rules('C13', {'R5', 'R3', 'R8'}, 'R5', 're-initialisation (restore / second run) starts from the same template: no in-place shuffle of constructor-derived state')
+  ctx.import_rules('C12', {'R2'}, 'R7', 'completed trials reach the designer in an order that does not depend on the clock (id order of the loader)')
+  ctx.import_rules('C13', {'R5', 'R3', 'R8', 'R6'}, 'R5', 're-initialisation (restore / second run) starts from the same template: no in-place shuffle of constructor-derived state')
   n_sites = 0
   for f in FILES:
     mi = ctx.index.module_of_file(f)
